@@ -725,7 +725,16 @@ func (r *collection) registerDescriptors(descriptors []*Descriptor, operation st
 			}
 		}
 
-		if descriptor.Key == nil && descriptor.Group != "" {
+		// A result object field tagged with both a name and a group is the same invalid
+		// combination that Descriptor.Validate rejects for the Name and Group options
+		if descriptor.Key != nil && descriptor.Group != "" {
+			return &ValidationError{
+				ServiceType: descriptor.Type,
+				Cause:       fmt.Errorf("descriptor cannot have both key and group set"),
+			}
+		}
+
+		if descriptor.Group != "" {
 			continue // group members never collide
 		}
 
